@@ -79,6 +79,11 @@ pub struct State {
     /// file-name suffixes whose hook points are schedule points (empty = all)
     pub sched_files: Vec<&'static str>,
     pub oracle_fail: Vec<String>,
+    /// preemption model: at a schedule point the running thread is descheduled for a while with probability 1/stall_n
+    pub stall_n: u64,
+    pub stall_ns: Vec<u64>,
+    pub stalls: u32,
+    pub max_stalls: u32,
 }
 
 pub struct Ctl {
@@ -341,6 +346,16 @@ impl Hooks for Ctl {
             g.threads[me].last_loc = l;
             g.threads[me].same_loc = 0;
         }
+        // preemption: the OS takes the CPU away from this thread for some (virtual) time
+        if g.stall_n > 0 && g.stalls < g.max_stalls && g.next_rand() % g.stall_n == 0 {
+            g.stalls += 1;
+            let k = (g.next_rand() as usize) % g.stall_ns.len();
+            let d = g.now + g.stall_ns[k];
+            g.threads[me].st = TS::Blocked { key: STALL_KEY + me, deadline: Some(d) };
+            g.threads[me].woken = false;
+            drop(self.switch(g, me));
+            return;
+        }
         // bounded unfairness: a thread that keeps the baton for too long (polling loop) gives way once
         g.threads[me].streak += 1;
         if g.threads[me].streak >= 48 {
@@ -529,6 +544,7 @@ impl Hooks for Ctl {
 }
 
 pub const JOIN_KEY: usize = 0x4000_0000;
+pub const STALL_KEY: usize = 0x5000_0000;
 
 #[derive(Clone, Debug)]
 pub struct Config {
@@ -539,6 +555,9 @@ pub struct Config {
     pub max_steps: u64,
     pub poll_io: bool,
     pub sched_files: Vec<&'static str>,
+    pub stall_n: u64,
+    pub stall_ns: Vec<u64>,
+    pub max_stalls: u32,
 }
 
 impl Config {
@@ -559,6 +578,15 @@ impl Config {
                 }
             }
         };
+        let stall: (u64, Vec<u64>) = match std::env::var("MAYV_STALL").ok() {
+            None => (0, vec![1]),
+            Some(s) => {
+                let p: Vec<&str> = s.split(':').collect();
+                let n = p[0].parse().unwrap_or(0);
+                let v: Vec<u64> = p.get(1).map(|x| x.split(',').filter_map(|y| y.parse().ok()).collect()).unwrap_or_default();
+                (n, if v.is_empty() { vec![50_000, 2_000_000, 30_000_000] } else { v })
+            }
+        };
         let workers = std::env::var("MAYV_WORKERS").ok().and_then(|s| s.parse().ok()).unwrap_or(2usize);
         Config {
             seed,
@@ -568,6 +596,10 @@ impl Config {
             max_steps: std::env::var("MAYV_MAX_STEPS").ok().and_then(|s| s.parse().ok()).unwrap_or(400_000),
             poll_io: false,
             sched_files: vec![],
+            // MAYV_STALL=N:ns,ns,...  (probability 1/N per schedule point, at most MAYV_MAX_STALLS per run)
+            stall_n: stall.0,
+            stall_ns: stall.1,
+            max_stalls: std::env::var("MAYV_MAX_STALLS").ok().and_then(|s| s.parse().ok()).unwrap_or(3),
         }
     }
 }
@@ -686,6 +718,10 @@ pub fn run(cfg: Config, body: impl FnOnce(&Ctx)) -> ! {
         stale_polls: 0,
         sched_files: cfg.sched_files.clone(),
         oracle_fail: vec![],
+        stall_n: cfg.stall_n,
+        stall_ns: cfg.stall_ns.clone(),
+        stalls: 0,
+        max_stalls: cfg.max_stalls,
     };
     for _ in 0..8 {
         st.next_rand();
